@@ -154,3 +154,32 @@ func VH_C08_RestartFinalized() {
 	e.run(chkC08, vhTailEvents, tail)
 	e.finish()
 }
+
+// VH_C08_LateHeader: the header of the block being committed arrives after the commit. Votes
+// for all three targets nil/A/B with exact most-voted targets (so the most prevoted and the most
+// precommitted block may differ); quiet start without headers, a view with new prevote numbers,
+// a view with new precommit numbers, then the two headers A and B arrive one by one. What is
+// handed to the driver must be the block that has the precommit quorum (R1), whatever the
+// prevotes say.
+func VH_C08_LateHeader() {
+	vhOpts()
+	vhExactTargets = true
+	defer func() { vhExactTargets = false }()
+	e := vhNewSM(true)
+	e.symEntrances = 0
+	e.entrancePHs = 0
+	if !e.start() {
+		return
+	}
+	e.check(chkC08)
+	for _, k := range []int{evViewPV, evViewPC, evHeader, evHeader} {
+		if !e.alive {
+			break
+		}
+		e.run(chkC08, []int{k}, 1)
+	}
+	if len(e.finReqs) > 0 {
+		verifrt.Reach("C08-late-header:finalize-requested-after-the-header-arrived")
+	}
+	e.finish()
+}
